@@ -309,9 +309,9 @@ fn run_chunk(rep: &mut Report, chunk: &[Sh], base: usize, tier: Tier) {
         }
         let bodies: Vec<String> = jobs.iter().map(|j| j.script.text.clone()).collect();
         let a_z3 = z3.check_batch(&bodies);
-        // cvc5's front end is the second sort checker; quick tier: every 4th instance (the coercion logic
-        // depends on operator/position/producer, which every 4th instance still covers many times over)
-        let stride = tier.pick(4usize, 1usize);
+        // cvc5's front end is the second sort checker; quick tier: every 8th instance (the coercion logic
+        // depends on operator/position/producer, which every 8th instance still covers many times over)
+        let stride = tier.pick(8usize, 1usize);
         let cv_idx: Vec<usize> = (0..jobs.len()).filter(|i| jobs[*i].script.cvc5_ok && (base + sci * 100 + jobs[*i].sh_idx) % stride == 0).collect();
         if cvc5.queries > 3000 {
             cvc5.restart();
